@@ -3,9 +3,26 @@ import json, sys
 pid = sys.argv[1]
 props = {json.loads(l)["id"]: json.loads(l) for l in open("/verif/properties.jsonl")}
 p = props[pid]
+import glob, os
+avoid = []
+for d in sorted(glob.glob(f"/verif/seeded/{pid}-m*") + glob.glob("/verif/seeded/*")):
+    try:
+        m = json.load(open(os.path.join(d, "meta.json")))
+    except Exception:
+        continue
+    if m.get("property") == pid or pid in m.get("also_breaks", []):
+        sm = (m.get("summary") or "")[:260].replace("\n", " ")
+        if sm and sm not in avoid:
+            avoid.append(sm)
+ROUND = os.environ.get("MUT_ROUND", "1")
+AVOID = ""
+if ROUND != "1" and avoid:
+    AVOID = "\nEarlier volunteers already produced the following changes for this property; yours must be DIFFERENT in mechanism and preferably in location (another function, file or layer -- e.g. the other back-end, the templates, the runtime header, a helper, the generator, the construction code rather than the evaluation code):\n" + "\n".join("  - " + a for a in avoid) + "\n"
+OUT = f"/tmp/mut{ROUND}" if ROUND != "1" else "/tmp/mut"
+WT = f"/tmp/wt{ROUND}" if ROUND != "1" else "/tmp/wt"
 print(f"""You are helping to evaluate a verification effort for the open-source Python/C++ library FormaK (buckbaskin/formak): a library that turns sympy state/sensor models into Python and C++ Extended Kalman Filter code (with common-subexpression elimination, innovation filtering and a "managed filter" runtime).
 
-Your scratch copy of the repository is the git worktree at /tmp/wt/{pid} (work ONLY there; never touch /repo or /verif, and do not read anything under /verif). Put your deliverables under /tmp/mut/{pid}/.
+Your scratch copy of the repository is the git worktree at {WT}/{pid} (work ONLY there; never touch /repo or /verif, and do not read anything under /verif). Put your deliverables under {OUT}/{pid}/.
 
 The property under study:
 
@@ -13,6 +30,7 @@ The property under study:
   Statement: {p['statement']}
   Quantified over: {p['quantifier']['text']}
 
+{AVOID}
 Your task: produce TWO independent source changes ("m1" and "m2", as different from each other in mechanism and location as you can) to the library code (under py/formak/, cpp/ or py/formak/templates/ -- not the tests) such that EACH change, applied alone to the unchanged worktree:
   1. breaks the property above (the library then really misbehaves for some input / configuration / history the property quantifies over);
   2. still "compiles" (Python imports fine; C++ headers/templates remain syntactically and type-wise plausible) and the existing runnable test suite still passes exactly as before: run from the worktree root
@@ -22,9 +40,9 @@ Your task: produce TWO independent source changes ("m1" and "m2", as different f
 For each change also write a demonstration: a small self-contained Python script (or, for C++-only changes, a small C++ program plus the g++/clang++ command line; there is no Eigen and no Bazel here, so C++ demos must use hand-written stand-in types, as the runtime headers are templates) that exits 0 on the unchanged worktree and exits non-zero (assertion failure) with the change applied. The demo takes the repository root as its first command-line argument and must put <root>/py on sys.path itself.
 
 Deliver, for k in 1,2:
-  /tmp/mut/{pid}/m<k>/patch.diff   (output of `git diff` in the worktree with only that change applied; must apply cleanly with `git apply` to the unchanged tree)
-  /tmp/mut/{pid}/m<k>/demo.py      (or demo.cpp + demo.sh)
-  /tmp/mut/{pid}/m<k>/meta.json    {{"property": "{pid}", "summary": "...", "needs_to_manifest": "...", "files": [...], "how_run": "..."}}
+  {OUT}/{pid}/m<k>/patch.diff   (output of `git diff` in the worktree with only that change applied; must apply cleanly with `git apply` to the unchanged tree)
+  {OUT}/{pid}/m<k>/demo.py      (or demo.cpp + demo.sh)
+  {OUT}/{pid}/m<k>/meta.json    {{"property": "{pid}", "summary": "...", "needs_to_manifest": "...", "files": [...], "how_run": "..."}}
 Before finishing, leave the worktree clean (`git checkout -- .`) and verify for each change: patch applies; demo passes without it and fails with it; the pytest run has the same passing set.
 
 Environment facts you need (sandbox, no network):
@@ -36,6 +54,7 @@ Environment facts you need (sandbox, no network):
         def _exec(self, *args, **kw):
             return _orig(self, *[float(np.asarray(a).reshape(-1)[0]) if isinstance(a, np.ndarray) else a for a in args], **kw)
         python.BasicBlock.execute = _exec
+  * SklearnEKFAdapter.transform / mahalanobis / score / fit additionally call float() on a 1x1 array, which numpy 2 rejects; a demo that needs them must also install, after importing formak.python, a module-level replacement `python.float` (a small class whose __new__ unwraps size-1 arrays and that still works with isinstance(x, float) via __instancecheck__ on its metaclass) -- library code itself must not be changed for this.
   * The C++ generator's entry points cpp.compile / cpp.compile_ekf parse sys.argv (--header, --source, --namespace); in a demo either set sys.argv or construct cpp.Model / cpp.ExtendedKalmanFilter directly and call cpp.header_from_ast / cpp.source_from_ast(generator=...) (run with cwd = repo root).
   * g++ and clang++ (C++20) are installed; Eigen, gtest and Bazel are not.
 Report back briefly: for each change, the file/function touched, why it breaks the property, and what it needs to manifest.""")
